@@ -37,7 +37,15 @@ def run(ctx):
             continue
         cls = getattr(vs, k["class"])
         for w in k.get("witnesses", []):
-            if schemes.observe_ctor(cls, w["string"])[0] != "OK" and k["text"] not in known_seen:
+            if w.get("kind") == "roundtrip":
+                try:
+                    a = cls(w["string"])
+                    still = not (cls(str(a)) == a)
+                except Exception:  # noqa
+                    still = True
+                if still and k["text"] not in known_seen:
+                    known_seen.append(k["text"])
+            elif schemes.observe_ctor(cls, w["string"])[0] != "OK" and k["text"] not in known_seen:
                 known_seen.append(k["text"])
         if k["text"] not in known_seen:
             ctx.say("note: listed finding no longer reproduces on its witness:", k["id"])
